@@ -11,9 +11,10 @@ Author: Duy Nguyen Ta, Fan Jiang, Matthew Sklar, Varun Agrawal, and Frank Dellae
 """
 
 from pyparsing import Or  # type: ignore
-from pyparsing import (Keyword, Literal, OneOrMore, QuotedString, Suppress,
-                       Word, alphanums, alphas, nestedExpr, nums,
-                       originalTextFor, printables)
+from pyparsing import (CharsNotIn, Combine, Forward, Keyword, Literal,
+                       OneOrMore, QuotedString, Suppress, Word, alphanums,
+                       alphas, nestedExpr, nums, originalTextFor, printables,
+                       quotedString)
 
 # rule for identifiers (e.g. variable names)
 IDENT = Word(alphas + '_', alphanums + '_') ^ Word(nums)
@@ -28,15 +29,30 @@ DUNDER = Suppress(Literal("__"))
 # Allow anything up to ',' or ';' except when they
 # appear inside matched expressions such as
 # (a, b) {c, b} "hello, world", templates, initializer lists, etc.
+# Inside a matched expression, parentheses, brackets and braces
+# have to pair up as well, e.g. `f(a[1)` is not a complete expression.
+_NESTED = Forward()
+
+
+def _nested_content(exclude: str):
+    """Anything inside a matched expression except quoted strings and `exclude`."""
+    return _NESTED | Combine(
+        OneOrMore(~quotedString + CharsNotIn(exclude + " \t\r\n", exact=1)))
+
+
+_NESTED <<= (
+    nestedExpr(opener='(', closer=')', content=_nested_content("()[]{}"))
+    | nestedExpr(opener='[', closer=']', content=_nested_content("()[]{}"))
+    | nestedExpr(opener='{', closer='}', content=_nested_content("()[]{}")))
+
 DEFAULT_ARG = originalTextFor(
     OneOrMore(
         QuotedString('"') ^  # parse double quoted strings
         QuotedString("'") ^  # parse single quoted strings
         Word(printables, excludeChars="(){}[]<>,;") ^  # parse arbitrary words
-        nestedExpr(opener='(', closer=')') ^  # parse expression in parentheses
-        nestedExpr(opener='[', closer=']') ^  # parse expression in brackets
-        nestedExpr(opener='{', closer='}') ^  # parse expression in braces
-        nestedExpr(opener='<', closer='>')  # parse template expressions
+        _NESTED ^  # parse expression in parentheses, brackets or braces
+        nestedExpr(opener='<', closer='>',
+                   content=_nested_content("<>()[]{}"))  # parse template expressions
     ))
 
 CONST, VIRTUAL, CLASS, STATIC, PAIR, TEMPLATE, TYPEDEF, INCLUDE = map(
